@@ -257,7 +257,9 @@ Render(FC, st, block) ==
                 ELSE [l \in 1 .. FC.nl |->
                    LineOf(Field(l, st) \o Field(FC.llq[l], st) \o Field(FC.lt[l], st) \o Field(FC.luq[l], st)
                           \o (IF FC.lists THEN ListText(FC.lprefs[l], FC.lranks[l], st) ELSE <<>>), st)]
-    IN  LineOf(hdr, st) \o Concat(stl) \o Concat(pl) \o Concat(lecl)
-        \o (IF block THEN InfoBlock ELSE <<>>)
+        full == LineOf(hdr, st) \o Concat(stl) \o Concat(pl) \o Concat(lecl)
+                \o (IF block THEN InfoBlock ELSE <<>>)
+    IN  \* a style may carry final |-> FALSE: the last line of the file has no line end
+        IF "final" \in DOMAIN st /\ ~st.final /\ full[Len(full)] = 10 THEN SubSeq(full, 1, Len(full) - 1) ELSE full
 
 =============================================================================
